@@ -203,3 +203,84 @@ def cbool(x):
 
 def clist(items):
     return "[" + "; ".join(items) + "]"
+
+
+# --------------------------------------------------------------------------
+# Coq source printers with interning of byte strings (keeps the case files small)
+
+class Intern:
+    def __init__(self):
+        self.tab = {}
+        self.defs = []
+
+    def b(self, x):
+        if isinstance(x, str):
+            x = x.encode("latin-1")
+        x = bytes(x)
+        if len(x) <= 2:
+            return cb(x) if x else "(@nil N)"
+        n = self.tab.get(x)
+        if n is None:
+            n = "b%d" % len(self.tab)
+            self.tab[x] = n
+            self.defs.append("Definition %s : list N := %s." % (n, cb(x)))
+        return n
+
+    def preamble(self):
+        return "\n".join(self.defs)
+
+
+def header_map(pairs):
+    """[(name, value)] as written -> ordered [(canonical key, [values])] (what net/http's Header holds;
+    the model looks keys up by equality, so the order of keys is irrelevant)."""
+    out = {}
+    for k, v in pairs:
+        if isinstance(k, bytes):
+            k = k.decode("latin-1")
+        if isinstance(v, str):
+            v = v.encode("latin-1")
+        out.setdefault(canonical_header(k), []).append(v)
+    return list(out.items())
+
+
+def coq_headers(I, hmap):
+    return clist("(%s, %s)" % (I.b(k), clist(I.b(v) for v in vs)) for k, vs in hmap)
+
+
+def coq_hreq(I, method, cpath, hmap, body):
+    return "{| q_method := %s; q_path := %s; q_headers := %s; q_body := %s |}" % (
+        I.b(method), I.b(cpath), coq_headers(I, hmap), I.b(body))
+
+
+def coq_version(I, v):
+    return "{| v_value := %s; v_from := %s; v_until := %s |}" % (
+        I.b(v["value"]), cz(v["from"]), "None" if v.get("until") is None else "(Some %s)" % cz(v["until"]))
+
+
+def coq_hmac_cfg(I, cfg):
+    """cfg: dict(sig, ts, nonce (canonical names), tol (ns), static [bytes], versions [dict(value, from, until)])"""
+    return ("{| h_sig := %s; h_ts := %s; h_nonce := %s; h_tol := %s; h_static := %s; h_versions := %s |}" % (
+        I.b(cfg["sig"]), I.b(cfg["ts"]), I.b(cfg["nonce"]), cz(cfg["tol"]),
+        clist(I.b(s) for s in cfg["static"]), clist(coq_version(I, v) for v in cfg.get("versions", []))))
+
+
+def nonce_weight(n):
+    return 1 + sum((i + 1) * (b + 1) for i, b in enumerate(n))
+
+
+def cache_checksum(entries):
+    """entries: iterable of (nonce bytes, expiry ns); twin of AuthEval.cache_checksum"""
+    return sum(nonce_weight(n) * e for n, e in entries)
+
+
+def parse_rows(out, marker):
+    """'<marker> = [(a, b, c); ...] : list ...' or '[a; b]' printed by coqc -> list of int tuples"""
+    import re
+    flat = " ".join(out.split())
+    m = re.search(r"\b" + re.escape(marker) + r"\s*=\s*(\[.*?\])\s*:\s*list", flat)
+    if not m:
+        return None
+    body = m.group(1)
+    if "(" in body:
+        return [tuple(int(x) for x in re.findall(r"-?\d+", part)) for part in re.findall(r"\(([^()]*)\)", body)]
+    return [(int(x),) for x in re.findall(r"-?\d+", body)]
